@@ -1,6 +1,26 @@
 """What each registered check claims (source of MANIFEST.json; see tools/gen_manifest.py)."""
 
 CLAIMS = {
+    "C03": {
+        "text": "Alignment discipline decided structurally: to_new_vars is evaluated for every relationship hint and must be relabelling only for "
+                "Arc/ValueEquivalent and otherwise a gather-by-name with zero default (one shared index vector for both Hessian axes); to_union_vars "
+                "is evaluated per relationship and must return both numbers on one shared list (union for Difference); vars_cmp's guards must imply "
+                "each relationship (ordered equality, not set equality); in every match on a vars_cmp result only Arc/Value arms may mix two "
+                "numbers' arrays directly; hints must be the vars_cmp result of the same operands; equality compares value then aligned arrays. "
+                "If every mix is on operands aligned by name with zero default onto a list containing the union, results depend on names only.",
+        "design_ref": "DESIGN.md §4 C03",
+        "note": "Trusted: IndexSet/Arc semantics, lib/cel.py array-comprehension semantics. Nothing dynamic is claimed.",
+        "technique": "symbolic evaluation of gather loops as array comprehensions; dataflow guard on match arms; quantifier-shape recognisers",
+    },
+    "C17": {
+        "text": "gradient1/gradient2/gradient1_manifold are evaluated symbolically: stored arrays are returned unchanged only under Arc/ValueEquivalence "
+                "with the requested list, otherwise entry i is the stored derivative at the position of requested[i] in the stored list (zero if absent) — "
+                "order asked = order answered; factor 2 on both gradient2 paths and in manifold rows; manifold entries are (dual[idx_i], 2*dual2[idx_i,.], 0) "
+                "on the requested list, zero number for absent names.",
+        "design_ref": "DESIGN.md §4 C17",
+        "note": "Not decided: the product-rule identity on concrete numbers; requested lists with repeated names. Trusted: lib/cel.py array semantics.",
+        "technique": "symbolic evaluation of guarded indexed writes in loops (array comprehension normal forms)",
+    },
     "C11": {
         "text": "The three two-point formulas are evaluated symbolically (generic over the number type) and must equal their closed forms incl. the "
                 "first-interval rule of the zero-rate formula; the flat rules are compared as canonical (condition, value) pairs; every interpolator "
